@@ -37,7 +37,9 @@ def lazy_substep_wait(case, res):
             if q == p:
                 continue
             Tq = reftime.apply(c.adapt, L)
-            if any(Tq[1:]) and any(D < Tq for D in mon.pending[q]):
+            # q must first reach a sub-step > 0 of this time; whether q's own step or the step of one of q's
+            # triggering ancestors outside the loop holds it back does not matter for the mechanism
+            if any(Tq[1:]):
                 return True
     return False
 
